@@ -94,3 +94,9 @@ def entries_none_from(table, lo):
 
 def was_called(contract):
     return contract in _call_args
+
+
+def urandom_draws():
+    """ghost of the symbolic executor only (the values os.urandom returned on this path); contracts that use it are
+    not replayed natively (native=False)"""
+    raise NotImplementedError('urandom_draws() has no native counterpart')
